@@ -361,8 +361,11 @@ class SparseFile(io.RawIOBase):
     """Concrete sparse in-memory file for witnesses and replays: explicit byte patches over a
     deterministic position-dependent filler. Read-only; counts bytes read."""
 
-    def __init__(self, size, patches=None, seed=0, name=None):
+    _ASCII = bytes(0x21 + (i % 94) for i in range(256))
+
+    def __init__(self, size, patches=None, seed=0, name=None, ascii=False):
         super().__init__()
+        self._ascii = ascii
         self._size = size
         self._patches = sorted((a, bytes(b)) for a, b in (patches or {}).items())
         self._pos = 0
@@ -433,6 +436,8 @@ class SparseFile(io.RawIOBase):
             raise MemoryError("replay read too large")
         start = self._pos
         buf = bytearray(self.filler(start, n))
+        if self._ascii:
+            buf = bytearray(bytes(buf).translate(self._ASCII))  # unpatched bytes are printable (decodable text)
         for a, b in self._patches:
             if a >= start + n:
                 break
